@@ -56,7 +56,7 @@ for _pid, _why in [
 ]:
     na(_pid, _why)
 
-prop("C02", ["sql_prec", "static_eval", "operator_tpl", "literals", "lex_numbers", "cid_inline", "lex_end_expr", "prql_prec", "range_sugar", "lower_expr"], select={"lower_expr": lambda n: n.split(".", 1)[1] in ("LO1", "LO1i", "LC1", "LC1i", "LA1", "LA1i", "LP1", "LL1", "MB1") or n.endswith(".safety"), "range_sugar": lambda n: n.split(".", 1)[1].startswith(("EB1.", "EB2.", "EU", "IN", "NB1", "EN1", "NS1", "RR", "RN1")) or n.endswith(".safety"), "prql_prec": lambda n: n.split(".", 1)[1].startswith(("PP1.", "FP1.")) or n.split(".", 1)[1] in ("NPF", "needs_parenthesis.safety"), "literals": lambda n: n.split(".", 1)[1] in ("TL1i", "TL1f", "NE1", "number_expr.safety")},
+prop("C02", ["sql_prec", "static_eval", "operator_tpl", "literals", "lex_numbers", "cid_inline", "lex_end_expr", "prql_prec", "range_sugar", "lower_expr"], select={"lower_expr": lambda n: n.split(".", 1)[1] in ("LO1", "LO1i", "LC1", "LC1i", "LA1", "LA1i", "LP1", "LL1", "MB1") or n.endswith(".safety"), "range_sugar": lambda n: n.split(".", 1)[1].startswith(("EB1.", "EB2.", "EU", "IN", "NB1", "EN1", "NS1", "RR", "RN1")) or n.endswith(".safety"), "prql_prec": lambda n: n.split(".", 1)[1].startswith(("PP1.", "FP1.")) or n.split(".", 1)[1] in ("NPF", "needs_parenthesis.safety", "BA1", "WW1"), "literals": lambda n: n.split(".", 1)[1] in ("TL1i", "TL1f", "NE1", "number_expr.safety")},
      not_covered="evaluation inside the database; dialect templates beyond the strengths they declare; sites that build SQL operands "
                  "without translate_operand (process_concat, process_array_in, try_into_between) are not yet under contract")
 claim("C02",
@@ -73,8 +73,8 @@ claim("C02",
       "Oracle = SQLite's documented precedence table (the executable grammar here). translate_expr is external (uninterpreted result, "
       "Context state not modelled); sqlparser enums are mechanically generated skeletons; sqlparser's Display is trusted to print trees as written.")
 
-prop("C01", ["split_order", "take_range", "operator_tpl", "vec_utils", "group_take", "flatten_sort", "sort_take", "sort_infer", "setop_pairs", "lower_transform", "positional_map", "sql_prec", "literal_rows", "lower_expr"],
-     select={"sql_prec": lambda n: n.split(".", 1)[1] in ("NP5eq", "NP5ne", "process_null.safety", "NP6a", "NP6b", "try_into_between.safety", "try_into_between.precondition")},
+prop("C01", ["split_order", "take_range", "operator_tpl", "vec_utils", "group_take", "flatten_sort", "sort_take", "sort_infer", "setop_pairs", "lower_transform", "positional_map", "sql_prec", "literal_rows", "lower_expr", "sql_relations"],
+     select={"sql_relations": lambda n: n.split(".", 1)[1] in ("JN1", "JN2", "translate_join.safety"), "sql_prec": lambda n: n.split(".", 1)[1] in ("NP5eq", "NP5ne", "process_null.safety", "NP6a", "NP6b", "try_into_between.safety", "try_into_between.precondition")},
      not_covered="anchor_split cid redirection, preprocess (distinct/union recognition), lowering, flattening, the other pluck call sites of translate_select_pipeline (select / sort / take / join): hash-map threaded folds over three "
                  "IRs; a violation there is invisible to these contracts")
 claim("C01",
@@ -91,7 +91,7 @@ claim("C01",
       "(PL1-2, loop invariant PLI, any length) and Vec::break_up cuts at the first match (BU1-3); a grouped take becomes DISTINCT only for `take 1` without an order "
       "over a key that is the whole row, DISTINCT ON only for `take 1`, and otherwise a ROW_NUMBER() filter whose condition holds exactly for the positions kept "
       "(group_take DT1-4, RN1). the SQL back end's sort inference, one step per transform: FROM a CTE starts with the sorting recorded for it and leaves the record for its other consumers, Sort replaces it, Distinct / Aggregate clear it, Join keeps it unless it served a DISTINCT ON, Take / DISTINCT ON emit the ORDER BY in front of themselves, Select / Filter keep it; the record of a CTE is the sorting its pipeline ended with (sort_infer SI0-8, CS1-2); building a join call keeps the Flattener's sort (flatten_sort FT3). a join is replaced by EXCEPT / INTERSECT only if its condition is nothing but equalities (collect_equals, recursive, CE1-2) that pair top[i] with bottom[i] for every i and nothing else (equal_by_position, loop invariant EP1-3; recognition slices XR1-3, IR1-2). each PL transform call is lowered to the RQ transform of the same name over the lowered operands, appending nothing else but Computes and changing nothing already lowered (lower_transform LT0-9). "
-      "lowering an expression to RQ is a homomorphism: literals, parameters, operator names, operand order, case branches, array elements, interpolation items survive, the recursive calls going through the function's own contract (lower_expr LL1 ... LF1: the whole of Lowerer::lower_expr except the Ident / All arms, lower_interpolations, str_lit, rq maybe_binop). NOT proved: the end-to-end sentence of C01 (semantic preservation of the whole compiler).",
+      "lowering an expression to RQ is a homomorphism: literals, parameters, operator names, operand order, case branches, array elements, interpolation items survive, the recursive calls going through the function's own contract (lower_expr LL1 ... LF1: the whole of Lowerer::lower_expr except the Ident / All arms, lower_interpolations, str_lit, rq maybe_binop). a join's side becomes the SQL join operator that keeps the same rows - INNER / LEFT OUTER / RIGHT OUTER / FULL OUTER - with the join condition as its ON clause (sql_relations JN1-2, translate_join whole). NOT proved: the end-to-end sentence of C01 (semantic preservation of the whole compiler).",
       "Oracle: SQL's logical clause order. HashSet<String>, strum AsRefStr, contains_any, the filter/fold in can_materialize and "
       "infer_complexity_expr are trusted by contract; split_off_back's loop and anchor_split are not under contract.")
 
@@ -163,7 +163,7 @@ claim("C05",
 
 prop("C10", ["resolve_guards", "name_lookup", "lineage_except", "frame_decls", "resolver_unwraps", "module_names", "lower_ident", "pl_fold", "lower_expr"],
      select={"lower_expr": lambda n: n.split(".", 1)[1] in ("LO2", "LO2i", "LT1", "LX1") or n.endswith("lower_expr.safety"),
-             "lineage_except": lambda n: n.split(".", 1)[1] in ("IC1", "IC2", "LE1", "LE2", "LE3", "SH1", "shadow_one.safety"),
+             "lineage_except": lambda n: n.split(".", 1)[1] in ("IC1", "IC2", "LE1", "LE2", "LE3", "SH1", "shadow_one.safety", "JL1", "JL2", "join.safety"),
              "resolver_unwraps": lambda n: n.split(".", 1)[1] in ("XA1", "WS1", "exclusion_arg.safety", "wildcard_self.safety")},
      not_covered="NS_INFER declarations (what resolve_ident_fallback infers), insert_frame (which columns a frame declares after select / "
                  "aggregate / group), resolve_ident_fallback inference, validate_expr_type (scalar where a relation is required): HashMap-of-Decl recursion; "
@@ -174,12 +174,12 @@ claim("C10",
       "Module::lookup returns the direct hits PLUS the hits through every redirect, for any number of redirects and whatever the direct lookup found "
       "(LK1, loop invariant LK2) - so a second candidate in another relation in scope is never missed; apply_args_to_closure returns Err whenever a named "
       "argument is not consumed by a named parameter of the callee (AA1-2); fold_function returns Err for more positional arguments than parameters, a "
-      "function value for fewer, and evaluates only a saturated call (FA1-3). a name that can only be inferred is created from exactly one inference template, is unknown with none and an error with several (resolve_ident_fallback's decision, RF1-3). what one path finds in one module (lookup_in, whole function; the recursion into sub-modules goes through the contract of Module::lookup): `p.rest` finds the members `rest` of the declaration p - of a nested module what its own lookup finds, of layered modules what the INNERMOST layer that finds anything finds (loop invariant over the reversed stack: shadowing), of anything else nothing - qualified with p; an undeclared name finds nothing; a single declared name finds itself or its `_self` (name_lookup LI1-6; Ident::pop_front PF1). `select !{..}` and the inference of a column of a wildcard table compare names exactly (lineage_except LE1-3, IC1-2); a newly defined column takes its bare name away from an earlier column that carries it and leaves every other column alone (SH1, per column: the loop over the columns is not under contract); an argument without a frame where a relation is required is an error, and a relation's frame comes into scope as `this` / `that` (resolve_guards GA1-2). what one column of a frame declares: a named column its own name as that column, a star only the `_infer` placeholder of an input that exists in the frame, an unnamed column nothing - every other name untouched (frame_decls FD1-3). in lowering, an identifier that the resolver bound to a node becomes the column recorded for that node, or an error when none is recorded - the name is handed to the database as text only for an identifier without a target (the Ident arm of lower_expr, lower_ident LI1-4); Lowerer::lookup_cid changes nothing, finds a computed node's column or the input's column of that name, and is an error - not a panic - otherwise (LK0-2). the default PL fold, through which the resolver reaches every expression it does not handle itself, hands every sub-expression of a node to the folder - tuple and array items, case conditions and values, s- / f-string items, the name, the positional and the named arguments of a call, the body and the applied arguments of a function, every operand of every transform kind, range bounds, sort keys - so no name escapes resolution inside a nested node (pl_fold PK1 ... PX1, 16 whole functions, loops by invariant over a ghost visit log). relation / scalar confusion at lowering: an operator with a relation-typed operand, a bare tuple, an unapplied function or transform where a scalar is required is an error (lower_expr LO2, LT1, LX1, loop invariant over the operands). NOT proved: that an out-of-frame column has zero candidates (which declarations a frame inserts), relation / "
+      "function value for fewer, and evaluates only a saturated call (FA1-3). a name that can only be inferred is created from exactly one inference template, is unknown with none and an error with several (resolve_ident_fallback's decision, RF1-3). what one path finds in one module (lookup_in, whole function; the recursion into sub-modules goes through the contract of Module::lookup): `p.rest` finds the members `rest` of the declaration p - of a nested module what its own lookup finds, of layered modules what the INNERMOST layer that finds anything finds (loop invariant over the reversed stack: shadowing), of anything else nothing - qualified with p; an undeclared name finds nothing; a single declared name finds itself or its `_self` (name_lookup LI1-6; Ident::pop_front PF1). `select !{..}` and the inference of a column of a wildcard table compare names exactly (lineage_except LE1-3, IC1-2); a newly defined column takes its bare name away from an earlier column that carries it and leaves every other column alone (SH1, per column: the loop over the columns is not under contract); the frame of a join is the left frame followed by the right frame, every column exactly as it was, so a bare name both sides answer to stays ambiguous (lineage_except JL1-2, `join` whole); an argument without a frame where a relation is required is an error, and a relation's frame comes into scope as `this` / `that` (resolve_guards GA1-2). what one column of a frame declares: a named column its own name as that column, a star only the `_infer` placeholder of an input that exists in the frame, an unnamed column nothing - every other name untouched (frame_decls FD1-3). in lowering, an identifier that the resolver bound to a node becomes the column recorded for that node, or an error when none is recorded - the name is handed to the database as text only for an identifier without a target (the Ident arm of lower_expr, lower_ident LI1-4); Lowerer::lookup_cid changes nothing, finds a computed node's column or the input's column of that name, and is an error - not a panic - otherwise (LK0-2). the default PL fold, through which the resolver reaches every expression it does not handle itself, hands every sub-expression of a node to the folder - tuple and array items, case conditions and values, s- / f-string items, the name, the positional and the named arguments of a call, the body and the applied arguments of a function, every operand of every transform kind, range bounds, sort keys - so no name escapes resolution inside a nested node (pl_fold PK1 ... PX1, 16 whole functions, loops by invariant over a ghost visit log). relation / scalar confusion at lowering: an operator with a relation-typed operand, a bare tuple, an unapplied function or transform where a scalar is required is an error (lower_expr LO2, LT1, LX1, loop invariant over the operands). NOT proved: that an out-of-frame column has zero candidates (which declarations a frame inserts), relation / "
       "scalar confusion in the resolver (validate_expr_type).",
       "HashSet<Ident> is a shim with a ghost set view; in resolve_guards lookup_in is external (it is under contract in name_lookup, where Module::lookup is external: the mutual recursion is cut at the contracts, its termination is not proved); resolve_ident_wildcard, resolve_ident_fallback, ambiguous_error, expr_of_func are "
       "external; the drain loop over named parameters is replaced by its contract (stated in the evidence).")
 
-prop("C09", ["ident_quote", "ids_names", "rel_names", "ident_regex", "dialect_flags", "literals", "select_shape", "interp_ident", "lex_end_expr"], select={"lex_end_expr": lambda n: ".continues." in n, "select_shape": lambda n: n.split(".", 1)[1] in ("SS2a", "SS2b", "SS2c", "translate_select_item.safety"), "dialect_flags": lambda n: n.rsplit(".", 1)[1] == "ident_quote", "literals": lambda n: n.split(".", 1)[1] in ("FM1", "FM2", "format_slice.safety")},
+prop("C09", ["ident_quote", "ids_names", "rel_names", "ident_regex", "dialect_flags", "literals", "select_shape", "interp_ident", "lex_end_expr", "sql_relations"], select={"sql_relations": lambda n: n.split(".", 1)[1] in ("RA1", "RA2", "table_alias_slice.safety"), "lex_end_expr": lambda n: ".continues." in n, "select_shape": lambda n: n.split(".", 1)[1] in ("SS2a", "SS2b", "SS2c", "translate_select_item.safety"), "dialect_flags": lambda n: n.rsplit(".", 1)[1] == "ident_quote", "literals": lambda n: n.split(".", 1)[1] in ("FM1", "FM2", "format_slice.safety")},
      not_covered="content of the keyword tables; freshness of generated names against user names that are not registered yet; "
                  "the order in which assign_names visits the declarations (a user table named like a generated name is only protected if it is visited first)")
 claim("C09",
@@ -190,7 +190,7 @@ claim("C09",
       "loaded id (IG1-3, SK1); names of one generator are pairwise distinct (NG1); at a pipeline split a re-declared column gets a name different from "
       "every name given at that split and the name is recorded (AS1a-c); every CTE gets a name different from the names of all CTEs named before it and every "
       "relation instance of a SELECT an alias different from those given before in that SELECT, while a name / alias that is present and unused is kept - the "
-      "user's table keeps its name (rel_names AN1-4, RN1-4; partial correctness: termination of the two regenerate-until-unused loops is not proved). the pattern of valid_ident() - compiled from the source literal into a spec function on every run - matches only `*` and texts of lower-case letters, digits, `_`, `$` that do not start with a digit, and matches every ordinary lower-case name (ident_regex RX1-3, for all character sequences). a keyword or literal word ends only where a bare name cannot continue: letters (also outside ASCII), digits and `_` continue it, so a column called `importé` or `nullable` is lexed as that name (lex_end_expr EE.continues rows). NOT proved: content of the keyword tables, capture of not-yet-registered "
+      "user's table keeps its name (rel_names AN1-4, RN1-4; partial correctness: termination of the two regenerate-until-unused loops is not proved). the pattern of valid_ident() - compiled from the source literal into a spec function on every run - matches only `*` and texts of lower-case letters, digits, `_`, `$` that do not start with a digit, and matches every ordinary lower-case name (ident_regex RX1-3, for all character sequences). a keyword or literal word ends only where a bare name cannot continue: letters (also outside ASCII), digits and `_` continue it, so a column called `importé` or `nullable` is lexed as that name (lex_end_expr EE.continues rows). the alias of a table in FROM is left out only when the table's own name - the whole last part, dots inside a quoted name included - is that alias, so `<alias>.<column>` references bind (sql_relations RA1-2). NOT proved: content of the keyword tables, capture of not-yet-registered "
       "user names.",
       "regex, HashSet, OnceLock tables, dyn DialectHandler, sqlparser Ident constructors, format! are shims by contract.")
 
@@ -237,7 +237,7 @@ def _safety(name):
 
 
 _ALL_UNITS = ["take_range", "sort_take", "split_order", "window_frame", "dialect_select", "ident_quote", "ids_names", "toposort", "rq_tables",
-              "select_shape", "span_units", "sql_prec", "prql_prec", "literals", "set_ops", "desugar", "resolve_guards", "lex_strings", "limit_clause", "static_eval", "operator_tpl", "rel_names", "lower_cols", "vec_utils", "group_take", "flatten_sort", "star_exclude", "std_arity", "limit_select", "rq_shape", "star_cols", "func_env", "json_lits", "cte_define", "type_meet", "fmt_strings", "concat_ops", "sstring_query", "sstring_cols", "lineage_except", "sort_infer", "setop_pairs", "setops_reach", "tuple_unpack", "resolver_unwraps", "name_lookup", "frame_decls", "select_cols", "lower_transform", "sort_names", "positional_map", "fmt_interp", "datetime_lit", "lex_numbers", "rq_fold", "dialect_flags", "cid_inline", "module_names", "compose_errors", "lex_end_expr", "fmt_names", "header_args", "literal_rows", "tuple_helpers", "pipeline_types", "lower_ident", "sql_templates", "interp_ident", "table_instance", "fmt_width", "span_frame", "range_sugar", "pl_fold", "lower_expr"]
+              "select_shape", "span_units", "sql_prec", "prql_prec", "literals", "set_ops", "desugar", "resolve_guards", "lex_strings", "limit_clause", "static_eval", "operator_tpl", "rel_names", "lower_cols", "vec_utils", "group_take", "flatten_sort", "star_exclude", "std_arity", "limit_select", "rq_shape", "star_cols", "func_env", "json_lits", "cte_define", "type_meet", "fmt_strings", "concat_ops", "sstring_query", "sstring_cols", "lineage_except", "sort_infer", "setop_pairs", "setops_reach", "tuple_unpack", "resolver_unwraps", "name_lookup", "frame_decls", "select_cols", "lower_transform", "sort_names", "positional_map", "fmt_interp", "datetime_lit", "lex_numbers", "rq_fold", "dialect_flags", "cid_inline", "module_names", "compose_errors", "lex_end_expr", "fmt_names", "header_args", "literal_rows", "tuple_helpers", "pipeline_types", "lower_ident", "sql_templates", "interp_ident", "table_instance", "fmt_width", "span_frame", "range_sugar", "pl_fold", "lower_expr", "sql_relations"]
 
 
 def _c12_split_order(n):
@@ -278,7 +278,7 @@ claim("C08",
       "sqlparser's Display (leaves doubled quotes alone - read in its source, validated by the thorough-tier sweep on SQLite) and sqlformat (white space only, given "
       "its precondition) are trusted; str::parse, str::replace and format! are uninterpreted; date/time/interval arms are not under contract.")
 
-prop("C07", ["set_ops", "limit_clause", "literals", "rel_names", "cte_define", "sql_prec", "static_eval", "positional_map", "rq_fold", "dialect_flags", "literal_rows", "sql_templates", "operator_tpl"], select={"operator_tpl": lambda n: n.split(".", 1)[1] in ("TP4", "TP4v", "operator_lookup_slice.safety", "operator_lookup_slice.unwrap"), "static_eval": lambda n: n.split(".", 1)[1] in ("SE2w", "SE2i", "SE2x", "static_eval_case.safety"), "literals": lambda n: n.split(".", 1)[1] in ("EI1", "expr_of_i64.safety", "TL1i", "TL1f", "NE1", "FM1"), "sql_prec": lambda n: n.split(".", 1)[1].startswith("NP4.std_neg") or n.endswith(".safety")},
+prop("C07", ["set_ops", "limit_clause", "literals", "rel_names", "cte_define", "sql_prec", "static_eval", "positional_map", "rq_fold", "dialect_flags", "literal_rows", "sql_templates", "operator_tpl", "sql_relations"], select={"operator_tpl": lambda n: n.split(".", 1)[1] in ("TP4", "TP4v", "operator_lookup_slice.safety", "operator_lookup_slice.unwrap"), "static_eval": lambda n: n.split(".", 1)[1] in ("SE2w", "SE2i", "SE2x", "static_eval_case.safety"), "literals": lambda n: n.split(".", 1)[1] in ("EI1", "expr_of_i64.safety", "TL1i", "TL1f", "NE1", "FM1"), "sql_prec": lambda n: n.split(".", 1)[1].startswith("NP4.std_neg") or n.endswith(".safety")},
      not_covered="scope of every table / column reference, per-dialect grammar, empty projections, relation alias uniqueness (assign_names), "
                  "which dialects besides SQLite have no bare OFFSET (MySQL, BigQuery: the handler table is assumed, not executable here)")
 claim("C07",
@@ -287,7 +287,7 @@ claim("C07",
       "(WR1, loop invariant, any number of CTEs) and carries every CTE (WR2); the set quantifier is ALL iff duplicates are kept and DISTINCT is written "
       "only where the dialect accepts it (SQ1-2); the LIMIT / OFFSET / FETCH clause is one the dialect's grammar has: FETCH never without OFFSET and ORDER BY and "
       "never together with LIMIT (LC1, LC1f), a dialect without bare OFFSET gets a LIMIT meaning `no limit` whenever it gets an OFFSET (LC3, LC4), row counts are "
-      "written as plain decimal digits (literals EI1); CTE names and relation aliases are unique in their scope (rel_names AN1-2, RN1-2); nested unary minus never produces the comment token `--` (sql_prec NP4.std_neg rows). a table compiled inline leaves its declaration NotYetDefined, so no reference is compiled to the name of a CTE that was never emitted (cte_define CI1); a `case` that survives constant folding has a WHEN branch - it is neither empty nor a lone `true => v`, which the generator would print as `CASE ELSE v END` (static_eval SE2w, inductive over the branch values); the default RQ fold hands every expression and column id of a node to the folder - array elements, case branches, s-string items, operator arguments, window bounds, sort keys - so CidCollector / CidRedirector see every column reference when a pipeline is split into CTEs (rq_fold FK1 ... FD1, loops by invariant); The sentence "
+      "written as plain decimal digits (literals EI1); CTE names and relation aliases are unique in their scope (rel_names AN1-2, RN1-2); nested unary minus never produces the comment token `--` (sql_prec NP4.std_neg rows). a table compiled inline leaves its declaration NotYetDefined, so no reference is compiled to the name of a CTE that was never emitted (cte_define CI1); a `case` that survives constant folding has a WHEN branch - it is neither empty nor a lone `true => v`, which the generator would print as `CASE ELSE v END` (static_eval SE2w, inductive over the branch values); the default RQ fold hands every expression and column id of a node to the folder - array elements, case branches, s-string items, operator arguments, window bounds, sort keys - so CidCollector / CidRedirector see every column reference when a pipeline is split into CTEs (rq_fold FK1 ... FD1, loops by invariant); a FROM item is named by its alias unless its own name is the alias (sql_relations RA1-2); a CTE is marked recursive exactly when it is a loop, and a loop is `initial UNION ALL step` (TC1-2). The sentence "
       "'every accepted program compiles to valid SQL of the dialect' is NOT what is proved.",
       "dialect flags and translate_cte are parameters / externals of the slices; the rest of except(), translate_query and "
       "translate_set_ops_pipeline is dropped.")
